@@ -38,9 +38,12 @@ def gen_script_case(rng):
         if rng.random() < 0.2:
             ts.append(sim_time)
         spike_times[nm] = ts
-    if len(spike_times) == 2 and rng.random() < 0.5:
-        a, b = list(spike_times)
-        spike_times[b].append(spike_times[a][0])
+    if len(spike_times) >= 2 and rng.random() < 0.6:
+        # a later variable shares one of several times of an earlier one (and only that one)
+        a, b = list(spike_times)[:2]
+        spike_times[b].append(rng.choice(spike_times[a]))
+        if rng.random() < 0.3:
+            spike_times[a].append(spike_times[a][0])      # a time listed twice for one variable: two spikes
     rates = [rng.choice([1.0, -2.0, 3.5, -0.5, 8.0, -6.0]) for _ in names]
     return {"indict": sysd, "sim_time": sim_time, "max_step": max_step, "alias": rng.random() < 0.5, "spike_times": spike_times, "rates": rates}
 
@@ -247,7 +250,7 @@ def run(ctx, driver):
         payloads = []
         for case, res in ops:
             payloads.append(("mi-run", {"sim_time": tb.f2bits(case["sim_time"]), "max_step": tb.f2bits(case["max_step"]), "alias": case["alias"],
-                                        "spikes": [[tb.f2bits(t), syms] for t, syms in res["spikes"]], "y0": [tb.f2bits(v) for v in res["y0"]],
+                                        "spikes": [[tb.f2bits(t), syms] for t, syms in expected_spikes(case, res["x"])], "y0": [tb.f2bits(v) for v in res["y0"]],
                                         "inc": [tb.f2bits(v) for v in res["y0"]], "upper": [None if v is None else tb.f2bits(v) for v in res["upper"]],
                                         "lower": [None if v is None else tb.f2bits(v) for v in res["lower"]], "rates": [tb.f2bits(v) for v in case["rates"]],
                                         "outer_fuel": 2000, "inner_fuel": 2000}))
@@ -284,11 +287,30 @@ def run(ctx, driver):
     ]
 
 
+def expected_spikes(case, x):
+    """the event list the *input* prescribes, merged independently of Integrator.set_spike_times: per distinct time (ascending)
+    the positions of the variables that spike then, with multiplicity, in the order the input lists them"""
+    ev = {}
+    for nm, ts in case["spike_times"].items():
+        for t in ts:
+            if nm in x:
+                ev.setdefault(float(t), []).append(x.index(nm))
+            else:
+                ev.setdefault(float(t), [])
+    return [[t, ev[t]] for t in sorted(ev)]
+
+
 def oracle_events(ctx, case, res):
     """direct checks on a scripted run (the script is exact in doubles for dyadic inputs)"""
     t_log, y_log = res["t_log"], res["y_log"]
     sig = {"alias": case["alias"]}
-    if t_log[0] != 0.0 or (y_log[0] != res["y0"] and not any(t <= 0 for t, _ in res["spikes"])):
+    spikes = expected_spikes(case, res["x"])          # from the input, not from the integrator's own merged list
+    if sorted((t, sorted(sy)) for t, sy in res["spikes"]) != sorted((t, sorted(sy)) for t, sy in spikes):
+        ctx.fail("event-not-applied-as-specified", case, {"what": "the merged event list differs from what the spike-time map prescribes",
+                                                          "merged_by_integrator": res["spikes"][:6], "prescribed": spikes[:6],
+                                                          "signature": dict(sig, what="event list")})
+        return
+    if t_log[0] != 0.0 or (y_log[0] != res["y0"] and not any(t <= 0 for t, _ in spikes)):
         ctx.fail("does-not-start-at-initial-values", case, {"observed": [t_log[0], y_log[0]], "expected": [0.0, res["y0"]], "signature": dict(sig, what="start")})
     if any(not (a < b) for a, b in zip(t_log, t_log[1:])):
         ctx.fail("time-not-strictly-increasing", case, {"t_log": t_log[:20], "signature": dict(sig, what="monotone")})
@@ -312,7 +334,7 @@ def oracle_events(ctx, case, res):
             # boundaries are the outer-iteration ends; a spike is due at the first boundary >= its time
             pass
         else:
-            for ts, syms in res["spikes"]:
+            for ts, syms in spikes:
                 if ts == t_log[k] and ts < case["sim_time"]:
                     for i in syms:
                         exp[i] = exp[i] + res["y0"][i]
@@ -323,7 +345,7 @@ def oracle_events(ctx, case, res):
                                                               "signature": dict(sig, what=what, lower_bound=lower)})
             return
     if not case["alias"]:
-        for ts, syms in res["spikes"]:
+        for ts, syms in spikes:
             if 0 < ts < case["sim_time"] and syms and ts not in t_log:
                 ctx.fail("spike-time-not-a-step-boundary", case, {"spike": ts, "signature": dict(sig, what="precise spike time")})
     else:
@@ -331,7 +353,7 @@ def oracle_events(ctx, case, res):
         # not possible in general, so only checked when no bound is active in this run)
         if not res["crossed"] and all(v is None for v in res["lower"]):
             for i in range(len(res["y0"])):
-                n_sp = sum(1 for ts, syms in res["spikes"] for j in syms if j == i and ts <= t_log[-1])
+                n_sp = sum(1 for ts, syms in spikes for j in syms if j == i and ts <= t_log[-1])
                 drift = sum((t_log[k] - t_log[k - 1]) * rates[i] for k in range(1, len(t_log)))
                 want = res["y0"][i] + drift + n_sp * res["y0"][i]
                 if abs(y_log[-1][i] - want) > 1e-9 * max(1.0, abs(want)):
